@@ -251,6 +251,17 @@ fn loop_main(sched: Arc<Sched>, scn: Value, tx: mpsc::Sender<Handles>, ctl: Arc<
             tx.send(Handles::Signal(el.get_signal(), wakers.clone())).unwrap();
         }
     }
+    // an armed timer far in the future: the wait of run()/block_on() is then bounded by its deadline instead of
+    // being infinite (another code path of Poll::poll); it never fires within a scenario
+    if let Some(ms) = scn["far_timer_ms"].as_u64() {
+        let _ = handle.insert_source(
+            calloop::timer::Timer::from_duration(Duration::from_millis(ms)),
+            |_, &mut (), _| {
+                ev("far_timer", json!({}));
+                calloop::timer::TimeoutAction::Drop
+            },
+        );
+    }
     sched.enroll(tid);
     sched.park(tid, "start");
     let script: Vec<Value> = scn["loop"].as_array().cloned().unwrap_or_default();
